@@ -119,19 +119,16 @@ Qed.
 
 (* ---------------------------------------------------------------- one column *)
 
-(* what totality needs of a shown cell: it belongs to the column's dtype (C03) and, in a float
-   column, it is not an int beyond the float range *)
-Definition cell_ok (dt : option dtype) (s : vshape) : Prop :=
-  fits dt s /\ (float_column dt = true -> s <> VIntLike true).
+(* what totality needs of a shown cell: it belongs to the column's dtype (C03) *)
+Definition cell_ok (dt : option dtype) (s : vshape) : Prop := fits dt s.
 
 Lemma fmt_value_total dt s : cell_ok dt s -> fmt_value dt s <> Exn.
 Proof.
-  intros [Hf Hb]. unfold fmt_value. destruct dt as [d|]; [|destruct (is_str s); discriminate].
-  unfold fits in Hf. unfold float_column in Hb.
+  intros Hf. unfold fmt_value. destruct dt as [d|]; [|destruct (is_str s); discriminate].
+  unfold cell_ok, fits in Hf.
   destruct (dkind d) eqn:Ek; simpl in *;
     try (destruct (is_str s); discriminate); try discriminate.
-  - (* float *) destruct s as [[| | |b]|[|]| | | |ne]; simpl in *; try contradiction; try discriminate.
-    (* the int beyond the float range *) exfalso. apply Hb; reflexivity.
+  - (* float *) destruct s as [[| | |b]|[|]| | | |ne]; simpl in *; try contradiction; discriminate.
   - (* date *) destruct s; simpl in *; try contradiction. discriminate.
 Qed.
 
@@ -151,11 +148,8 @@ Proof.
 Qed.
 
 Lemma vec_cells_ok v :
-  well_typed_vec v -> float_ints_in_range v -> forall s, In (Some s) (vdata v) -> cell_ok (vdtype v) s.
-Proof.
-  intros Hw Hb s Hs. split; [apply Hw; exact Hs|].
-  intros Hf ->. exact (Hb Hf Hs).
-Qed.
+  well_typed_vec v -> forall s, In (Some s) (vdata v) -> cell_ok (vdtype v) s.
+Proof. intros Hw s Hs. apply Hw. exact Hs. Qed.
 
 (* a formatted line shows the row of its preview entry: the marker's line comes from the marker
    only, whatever the data (a cell equal to '...' included) *)
@@ -191,9 +185,9 @@ Proof. destruct o as [[] d|[] d]; simpl; discriminate. Qed.
 (* ---------------------------------------------------------------- vectors *)
 
 Theorem vector_total glob v :
-  well_typed_vec v -> float_ints_in_range v -> repr_vector glob v <> Exn.
+  well_typed_vec v -> repr_vector glob v <> Exn.
 Proof.
-  intros Hw Hn. unfold repr_vector. destruct (vdata v) as [|c t] eqn:Ed; [discriminate|].
+  intros Hw. unfold repr_vector. destruct (vdata v) as [|c t] eqn:Ed; [discriminate|].
   assert (Hc : format_column (vdtype v) (half glob) (c :: t) <> Exn).
   { apply format_column_total. intros s Hs. rewrite <- Ed in Hs. apply vec_cells_ok; assumption. }
   destruct (format_column (vdtype v) (half glob) (c :: t)) as [body|]; [|contradiction]. simpl.
@@ -424,7 +418,7 @@ Qed.
 
 Theorem table_total glob t :
   rectangular t ->
-  (forall c, In c (tcols t) -> well_typed_vec c /\ float_ints_in_range c) ->
+  (forall c, In c (tcols t) -> well_typed_vec c) ->
   repr_table glob t <> Exn.
 Proof.
   intros Hr Hc. unfold repr_table.
@@ -436,7 +430,7 @@ Proof.
   rewrite Hh. fold (fmt_shown glob t).
   assert (Hf : fmt_shown glob t <> Exn).
   { unfold fmt_shown. apply map_res_ok. intros [j c] Hin. cbn [snd].
-    apply shown_cols_in in Hin. destruct Hin as [Hin _]. destruct (Hc c Hin) as [Hw Hn].
+    apply shown_cols_in in Hin. destruct Hin as [Hin _]. pose proof (Hc c Hin) as Hw.
     apply format_column_total. intros s Hs. apply vec_cells_ok; assumption. }
   destruct (fmt_shown glob t) as [formatted|] eqn:Ef; [|contradiction]. cbn [bind].
   pose proof (display_row_total (truncated_cols (List.length (tcols t))) (shown_cols (tcols t))) as Hd.
@@ -577,21 +571,6 @@ Proof.
         destruct o as [e d|e d]; simpl in *; rewrite He; reflexivity. }
     rewrite Hfalse in Eany. discriminate.
 Qed.
-
-(* ---------------------------------------------------------------- the remaining partiality *)
-
-(* Vector([1.5, 10**400]): a legal <float> vector (C03 lets a float column hold ints); the int is
-   beyond the float range, f"{v:.1f}" converts it with float(v) and raises OverflowError *)
-Definition huge_in_float : vec :=
-  mkVec None (Some (mkD KFloat false)) [Some (VFloat (FFinite false)); Some (VIntLike true)].
-
-Lemma huge_in_float_well_typed : well_typed_vec huge_in_float.
-Proof.
-  intros s Hs. simpl in Hs. destruct Hs as [Hs|[Hs|[]]]; inversion Hs; exact I.
-Qed.
-
-Lemma huge_in_float_raises : repr_vector 12%Z huge_in_float = Exn.
-Proof. reflexivity. Qed.
 
 (* ---------------------------------------------------------------- purity *)
 
